@@ -22,11 +22,17 @@
    * "the time-bounded variant counts only interactions after the cutoff, whichever representation
      the timestamps have"                                               -> time_bounded_counts_after_cutoff,
                                                                            time_representation_irrelevant
+   * "for every rating dataset ... zero offsets for unknown users or items" at the level of identifiers
+     (vocabularies in arrival order, identifiers of any value)             -> identifiers_resolve,
+                                                                           offset_by_identifier,
+                                                                           popularity_vocabulary_order_irrelevant,
+                                                                           popularity_by_identifier
    Standing conventions: Q division by zero is 0, so `global_mean []` is 0 where numpy gives NaN (the
    statements about learn are meant for a non-empty rating set, which the generator always supplies);
    damping is non-negative where a hypothesis says so (BiasConfig enforces it). *)
 From Coq Require Import ZArith QArith Qabs List Bool Sorted Permutation.
-From LK Require Import Lib.QLib Model.C08_bias Proofs.C08_bias_proofs Proofs.C08_pop_proofs.
+From LK Require Import Lib.QLib Model.C08_bias Model.C08_vocab Proofs.C08_bias_proofs Proofs.C08_pop_proofs
+  Proofs.C08_vocab_proofs.
 Import ListNotations.
 Open Scope Q_scope.
 
@@ -130,6 +136,51 @@ Theorem time_representation_irrelevant : forall ni cutoff r (log : list (nat * Q
 Proof. exact time_repr_irrelevant_l. Qed.
 Print Assumptions time_representation_irrelevant.
 
+(* identifier level.  A vocabulary lists identifiers in order of arrival (any order, any values: zero,
+   negative, the code of the empty string); an identifier that occurs in it resolves to its position and
+   one that does not resolves to nothing -- the value of the identifier plays no part. *)
+Theorem identifiers_resolve : forall (v : vocab), NoDup v ->
+  (forall k x, nth_error v k = Some x -> number v x = Some k) /\
+  (forall x, ~ In x v -> number v x = None) /\
+  (forall x k, number v x = Some k -> nth_error v k = Some x).
+Proof. exact identifiers_resolve_l. Qed.
+Print Assumptions identifiers_resolve.
+
+(* a query that carries only a user identifier (bare id, RecQuery(user_id=...)): every known user gets the
+   stored offset of its own number, an unknown identifier and a query without identifier get 0; the same
+   for item identifiers *)
+Theorem offset_by_identifier : forall m d (users items : vocab) ub,
+  NoDup users -> NoDup items -> b_users m = Some ub ->
+  (forall u x, nth_error users u = Some x ->
+     user_off m d (resolve_query users items {| iq_user := Some x; iq_hist := None |}) = nth u ub 0) /\
+  (forall x, ~ In x users ->
+     user_off m d (resolve_query users items {| iq_user := Some x; iq_hist := None |}) = 0) /\
+  user_off m d (resolve_query users items {| iq_user := None; iq_hist := None |}) = 0 /\
+  (forall i x, nth_error items i = Some x -> item_off m (number items x) = item_off m (Some i)) /\
+  (forall x, ~ In x items -> item_off m (number items x) = 0).
+Proof. exact offset_by_identifier_l. Qed.
+Print Assumptions offset_by_identifier.
+
+(* PopScorer.train / TimeBoundedPopScore.train: the transformed counts go through sort_index() and are
+   brought back with reindex(vocabulary); the stored score at number k is the score of the k-th count
+   whatever the order of the vocabulary (built in several steps, later batches with smaller identifiers) *)
+Theorem popularity_vocabulary_order_irrelevant : forall (items : vocab) v counts,
+  NoDup items -> length counts = length items ->
+  pop_train_ids items v counts = pop_scores v counts.
+Proof. exact vocabulary_order_irrelevant_l. Qed.
+Print Assumptions popularity_vocabulary_order_irrelevant.
+
+(* scoring by identifier after training on any vocabulary: a known identifier gets the score of its own
+   count, an unknown identifier stays unscored *)
+Theorem popularity_by_identifier : forall (items : vocab) v counts,
+  NoDup items -> length counts = length items ->
+  (forall its k i x, nth_error its k = Some x -> nth_error items i = Some x ->
+     nth_error (pop_call_ids items (pop_train_ids items v counts) its) k = Some (nth i (pop_scores v counts) None)) /\
+  (forall its k x, nth_error its k = Some x -> ~ In x items ->
+     nth_error (pop_call_ids items (pop_train_ids items v counts) its) k = Some None).
+Proof. exact pop_by_identifier_l. Qed.
+Print Assumptions popularity_by_identifier.
+
 (* non-vacuity: 3 users x 3 items (item 2 and user 2 without ratings), damping 1/2 for users and 0 for
    items; the offsets are the hand-computed ones; a history with an unknown item; two tied counts whose
    cumulative shares may come in either order, and a wrong assignment that the checker rejects *)
@@ -145,10 +196,21 @@ Example c08_nonvacuous :
   quantile_ok_b Qeq_bool [2; 1; 1; 0]%nat [Some 1; Some (1 # 2); Some (1 # 4); Some 0] = true /\
   quantile_ok_b Qeq_bool [2; 1; 1; 0]%nat [Some 1; Some (1 # 2); Some (1 # 2); Some 0] = false /\
   tb_counts 2 (TDate 1000) (3 # 2) [(0%nat, 1000); (0%nat, 2000); (1%nat, 1500)] = [1; 0]%nat /\
-  tb_counts 2 TNum (3 # 2) [(0%nat, 1); (0%nat, 5 # 2); (1%nat, 3 # 2)] = [1; 0]%nat.
+  tb_counts 2 TNum (3 # 2) [(0%nat, 1); (0%nat, 5 # 2); (1%nat, 3 # 2)] = [1; 0]%nat /\
+  (* identifier level: an unsorted vocabulary holding 0 and a negative identifier *)
+  (let users : vocab := [7; 0; -1]%Z in let items : vocab := [5; -2; 0]%Z in
+   NoDup users /\ NoDup items /\ number users 0%Z = Some 1%nat /\ number users 3%Z = None /\
+   user_off m d (resolve_query users items {| iq_user := Some 0%Z; iq_hist := None |}) == - (1) /\
+   sort_index (combine items [Some 1; Some 2; Some 0]) = [((-2)%Z, Some 2); (0%Z, Some 0); (5%Z, Some 1)] /\
+   pop_train_ids items VCount [1; 2; 0]%nat = [Some 1; Some 2; Some 0] /\
+   pop_call_ids items (pop_train_ids items VCount [1; 2; 0]%nat) [0; 9; -2]%Z = [Some 0; None; Some 2]).
 Proof.
   cbv zeta. split; [vm_compute; reflexivity|].
   split; [eexists; split; [reflexivity|]; vm_compute; intuition discriminate|].
   split; [eexists; split; [reflexivity|]; vm_compute; intuition discriminate|].
-  split; [vm_compute; reflexivity|]. repeat split; vm_compute; reflexivity.
+  split; [vm_compute; reflexivity|].
+  do 5 (split; [vm_compute; reflexivity|]).
+  split; [repeat constructor; cbn; intuition discriminate|].
+  split; [repeat constructor; cbn; intuition discriminate|].
+  repeat split; vm_compute; reflexivity.
 Qed.
